@@ -56,7 +56,18 @@ def show(t):
         return "%s%s(%s)" % ((show(t[2]) + ".") if t[2] is not None else "", t[1], ", ".join(show(a) for a in t[3]))
     if k == "op":
         return "%s(%s)" % (t[1], ", ".join(show(a) for a in t[2:]))
+    if k == "alt":
+        return " | ".join(show(a) for a in t[1:])
     return "?%s" % (t[1],)
+
+
+def _one(ts, node):
+    """A single term for a set of alternatives."""
+    if len(ts) == 1:
+        return next(iter(ts))
+    if not ts or len(ts) > MAX_TERMS:
+        return ("unknown", norm(node)[:40])
+    return ("alt",) + tuple(sorted(ts, key=repr))
 
 
 def _targets(t, path=()):
@@ -176,7 +187,7 @@ def rdefs(func):
 
 
 class Flow:
-    def __init__(self, ctx, pool, depth=12):
+    def __init__(self, ctx, pool, depth=12, rows=True):
         """pool: the functions among which parameters are substituted by the
         arguments of their callers."""
         self.ctx = ctx
@@ -184,6 +195,8 @@ class Flow:
         self.pool = list(pool)
         self.depth = depth
         self._callers = None
+        self.rows = rows
+        self.exec_calls = {}
 
     # ----------------------------------------------------------- call sites
     def callers(self, func):
@@ -260,8 +273,71 @@ class Flow:
             out.add(cur)
         return out
 
+    def row_of(self, recv_expr, at_node, func, depth, env, seen):
+        """('row', key) when an execute on the same receiver dominates at_node (the closest one): the rows being
+        read are those of that statement.  key -> (func, call) in self.exec_calls."""
+        if isinstance(recv_expr, ast.Call) and isinstance(recv_expr.func, ast.Attribute) and recv_expr.func.attr == "execute":
+            key = (func.qual, recv_expr.lineno, recv_expr.col_offset)
+            self.exec_calls[key] = (func, recv_expr)
+            return ("row", key)
+        rt = self.terms(recv_expr, func, depth, env, seen)
+        cfg = cfg_of(func)
+        tn = cfg.node_for(at_node)
+        if tn is None:
+            return None
+        cands = []
+        for c in calls_in(func.node, own=True):
+            if isinstance(c.func, ast.Attribute) and c.func.attr == "execute" and c.args:
+                if norm(c.func.value) == norm(recv_expr) or self.terms(c.func.value, func, depth, env, seen) == rt:
+                    cn = cfg.node_for(c)
+                    if cn is not None and cn.id != tn.id and cfg.dominates(cn.id, tn.id):
+                        cands.append((cn.id, c))
+        if not cands:
+            return None
+        # the closest dominating one: dominated by all the others
+        best = None
+        for cid, c in cands:
+            if all(cfg.dominates(o, cid) for o, _c in cands):
+                best = c
+        if best is None:
+            return None
+        # no other execute on the receiver may intervene on a path from it to the read
+        a_, b_ = cfg.node_for(best).id, tn.id
+        fwd, stack = set(), [m for m, _l in cfg.succ[a_]]
+        while stack:
+            n_ = stack.pop()
+            if n_ in fwd or n_ in (a_, b_):
+                continue
+            fwd.add(n_)
+            stack.extend(m for m, _l in cfg.succ[n_])
+        back, stack = set(), [m for m, _l in cfg.pred[b_]]
+        while stack:
+            n_ = stack.pop()
+            if n_ in back or n_ in (a_, b_):
+                continue
+            back.add(n_)
+            stack.extend(m for m, _l in cfg.pred[n_])
+        between = fwd & back
+        for c in calls_in(func.node, own=True):
+            if c is best or not (isinstance(c.func, ast.Attribute) and c.func.attr in ("execute", "executemany", "executescript")):
+                continue
+            if norm(c.func.value) != norm(recv_expr):
+                continue
+            cn = cfg.node_for(c)
+            if cn is not None and cn.id in between:
+                return None
+        key = (func.qual, best.lineno, best.col_offset)
+        self.exec_calls[key] = (func, best)
+        return ("row", key)
+
     def _iter_elem(self, it_expr, func, depth, env, seen):
         """Terms for one element of iterating it_expr."""
+        if self.rows and isinstance(it_expr, (ast.Name, ast.Attribute)) or (self.rows and isinstance(it_expr, ast.Call) and isinstance(it_expr.func, ast.Attribute)
+                                                                          and it_expr.func.attr in ("execute", "fetchall")):
+            recv = it_expr.func.value if isinstance(it_expr, ast.Call) and it_expr.func.attr == "fetchall" else it_expr
+            r = self.row_of(recv, it_expr, func, depth, env, seen)
+            if r is not None:
+                return {r}
         if isinstance(it_expr, ast.Call) and isinstance(it_expr.func, ast.Name):
             n = it_expr.func.id
             if n == "enumerate" and it_expr.args:
@@ -319,11 +395,16 @@ class Flow:
             if any(isinstance(x, ast.Starred) for x in e.elts):
                 return {("unknown", norm(e))}
             cols = [T(x) for x in e.elts]
-            out = {("op", "tuple" if isinstance(e, ast.Tuple) else "list")}
+            head = ("op", "tuple" if isinstance(e, ast.Tuple) else "list")
+            n_alt = 1
+            for c in cols:
+                n_alt *= max(1, len(c))
+            if n_alt > MAX_TERMS:
+                # too many combinations: one display whose elements carry their alternatives
+                return {head + tuple(next(iter(c)) if len(c) == 1 else ("alt",) + tuple(sorted(c, key=repr)) for c in cols)}
+            out = {head}
             for c in cols:
                 out = {o + (t,) for o in out for t in c}
-                if len(out) > MAX_TERMS:
-                    return {("unknown", "many")}
             return out
         if isinstance(e, (ast.ListComp, ast.GeneratorExp, ast.SetComp)):
             return {("op", "listcomp", t) for t in T(e.elt)}
@@ -350,7 +431,13 @@ class Flow:
         if isinstance(e, ast.JoinedStr):
             return {("op", "fstring", ("const", norm(e)))}
         if isinstance(e, ast.Dict):
-            return {("op", "dict", ("const", norm(e)))}
+            items = []
+            for k, v in zip(e.keys, e.values):
+                if k is None:
+                    return {("op", "dict", ("unknown", norm(e)))}
+                kt, vt = T(k), T(v)
+                items.append(("op", "kv", _one(kt, k), _one(vt, v)))
+            return {("op", "dict") + tuple(items)}
         if isinstance(e, ast.Lambda):
             return {("op", "lambda", ("const", norm(e)))}
         return {("unknown", norm(e)[:40])}
@@ -403,6 +490,8 @@ class Flow:
 
     def _def_terms(self, d, name, func, depth, env, seen):
         kind, node, path = d
+        if depth > self.depth:
+            return {("unknown", "depth")}
         if kind == "param":
             if name in env:
                 return env[name]
@@ -435,6 +524,10 @@ class Flow:
             ts = self.terms(val, func, depth + 1, env, seen)
             return self._project(ts, path)
         if kind == "aug":
+            key = ("aug", id(node))
+            if key in seen or depth > self.depth:
+                return {("unknown", "loop-carried %s" % name)}
+            seen = seen + (key,)
             prev = set()
             rd = rdefs(func)
             n = rd.cfg.node_for(node)
@@ -475,6 +568,10 @@ class Flow:
             return out
         if isinstance(f, ast.Attribute) and f.attr in ("copy",) and not e.args:
             return T(f.value)
+        if self.rows and isinstance(f, ast.Attribute) and f.attr == "fetchone" and not e.args:
+            r = self.row_of(f.value, e, func, depth, env, seen)
+            if r is not None:
+                return {r}
         if isinstance(f, ast.Name) and f.id == "getattr" and len(e.args) >= 2 and isinstance(e.args[1], ast.Constant) and isinstance(e.args[1].value, str):
             return {("attr", b, e.args[1].value) for b in T(e.args[0])}
         funcs, d = self.proj.resolve_call(e, func)
@@ -501,14 +598,14 @@ class Flow:
         recv = None
         if isinstance(f, ast.Attribute) and (d is None or d.startswith("$")):
             rs = T(f.value)
-            recv = next(iter(rs)) if len(rs) == 1 else ("unknown", norm(f.value))
+            recv = _one(rs, f.value)
         args = []
         for a in e.args:
             ts = T(a)
-            args.append(next(iter(ts)) if len(ts) == 1 else ("unknown", norm(a)))
+            args.append(_one(ts, a))
         for k in e.keywords:
             ts = T(k.value)
-            args.append(("op", "kw", ("const", k.arg), next(iter(ts)) if len(ts) == 1 else ("unknown", norm(k.value))))
+            args.append(("op", "kw", ("const", k.arg), _one(ts, k.value)))
         return {("call", name, recv, tuple(args))}
 
 
